@@ -17,7 +17,7 @@ from pathlib import Path
 HERE = Path(__file__).resolve().parent
 BASELINE = HERE / "c02c14_source_baseline.json"
 FILES = ["_scope.py", "_build.py", "_graph.py", "_function.py", "_inline.py", "_public.py", "_adapt.py",
-         "_internal_op.py", "_node.py", "_schemas.py", "_standard.py"]
+         "_internal_op.py", "_node.py", "_schemas.py", "_standard.py", "_shape.py", "_type_system.py"]
 
 
 def _strip(node):
